@@ -31,17 +31,18 @@ TInit ==
 
 CatchCase ==
   /\ status = "running" /\ phase = "unwind" /\ stack # <<>>
-  /\ stack[Len(stack)].k \in Catchers \cup Loops
+  /\ Top.k \in Catchers \cup {"lpc"}
   /\ ~Reraise
 
 Visible(e) ==
-  CASE e.e = "enter" -> Enter /\ Len(stack) + 1 = e.i /\ W[Len(stack) + 1] = e.x
-    [] e.e = "caught" -> CatchCase /\ Len(stack) = e.i /\ err = e.x /\ Unwind
+  CASE e.e = "enter" -> ~AtLoopLevel /\ Depth + 1 = e.i /\ Depth < Len(W) /\ W[Depth + 1] = e.x /\ Enter
+    [] e.e = "caught" -> CatchCase /\ Depth = e.i /\ err = e.x /\ Unwind
     [] e.e = "done" -> (Unwind \/ Ret) /\ stack = <<>> /\ status' = e.x
     [] OTHER -> FALSE
 
 Internal ==
   \/ Invoke \/ Step \/ HookFires \/ Tick
+  \/ AtLoopLevel /\ Enter          \* next iteration of a loop (reported only once)
   \/ Unwind /\ stack # <<>> /\ ~CatchCase
   \/ Ret /\ stack # <<>>
 
